@@ -829,7 +829,7 @@ func (x *Exec) appendOp(bc *blockCtx, in ssa.Instruction, args []*Val) *Val {
 		i := x.b.BoundVar("ai", "Int")
 		x.assume(bc.reach, x.b.Quant("forall", []*smt.Term{i},
 			x.b.Implies(x.b.And(x.b.Cmp("<=", x.b.Int(0), i), x.b.Cmp("<", i, x.sLen(s))),
-				x.b.Eq(x.sel(contents, i, es), x.sel(srcArr, x.b.Add(x.sOff(s), i), es)))))
+				x.b.Eq(x.sel(contents, i, es), x.rdSlice(srcArr, x.sOff(s), i, es)))))
 	}
 	if tl.IntV != nil && tl.IntV.IsInt64() && tl.IntV.Int64() <= 8 {
 		tArr := x.sel(h, x.sRef(t), arrSort)
